@@ -96,5 +96,11 @@ class Judge:
             vlib.log("  DRIFT %s x%d: %s" % (k, v["count"], v["what"]))
 
 
+def finding_fixed(key):
+    """The mechanism level of a specification follows the status of its known-finding entries: `fixed` selects the repaired
+    mechanism (so the unchanged tree shows no drift, and a tree without the repair contradicts the statement again)."""
+    return any(k.get("key") == key and k.get("status") == "fixed" for k in vlib.load_known())
+
+
 def load_replay(path):
     return json.load(open(path))["replay"]
